@@ -270,9 +270,7 @@ Definition struct_labels (md : mode) (qnl qnr : list label) (qntot : label) (ord
   let perm (q : list label) := if m_full md then q else
         match m_deco md with DSvd => map (fun k => nth k q []) p | DQr => q end in
   [Z.of_nat (length main); Z.of_nat (length cu); Z.of_nat (length cv)]
-    ++ concat (perm ql) ++ concat (perm qr)
-    ++ (* per output column of U: block-local column index (before the sort), then the same for V *)
-       map (fun d => Z.of_nat (snd d)) cu ++ map (fun d => Z.of_nat (snd d)) cv.
+    ++ concat (perm ql) ++ concat (perm qr).
 
 Definition struct_eigh (qn comp : list label) (qntot : label) (order : list label) : list Z :=
   let keys := bkeys (eigh_present comp qntot) order in
